@@ -151,6 +151,7 @@ func (u *Universe) plans(st *SpecTables) map[string]*PropPlan {
 	}
 	P["C06"] = &PropPlan{ID: "C06", Title: "scores lie on the tenth grid in range; severity is the band of the same level's score",
 		Units: cat(v3(), v2(), scoreUnitsV3, scoreUnitsV2, []Unit{
+			{Func: "v3m.roundUp"}, // symbolic contract over all doubles in [0,10]: thorough tier only (minutes on cvc5)
 			{Func: "v3m.severity"}, {Func: "v3m.Severity.String"},
 			{Func: "v3m.Base.Severity", Families: []string{"sev"}}, {Func: "v3m.Temporal.Severity", Families: []string{"sev"}}, {Func: "v3m.Environmental.Severity", Families: []string{"sev"}},
 			{Func: "v2m.severity"}, {Func: "v2m.Severity.String"},
